@@ -307,6 +307,11 @@ def run(ctx: Ctx, rep: Report) -> None:
     got += rep.adopt_rules(sub4, "C05-R11", ["C04-R1"], containing="binding per requested OID")
     sub = ctx.sub_run("c18", rep)
     rep.adopt_rules(sub, "C05-R7", ["C18-R4"])
+    # ... and a temporary override is undone completely (credentials AND the message-processing model), also when the block raises
+    rep.adopt_rules(sub, "C05-R7", ["C18-R1"])
+    # the authoritative engine id / boots / time put into every later request are the ones the discovery reply's
+    # security parameters carried
+    rep.adopt_rules(ctx.sub_run("c12", rep), "C05-R8", ["C12-R7"])
 
 
 def pdu_body_by_evaluation(ctx: Ctx, rep: Report, enc: FuncInfo, pdu: ClassInfo, content: ClassInfo) -> bool:
